@@ -66,9 +66,11 @@ structure IInvB (c : ICfg) (s : IT) : Prop where
   cons : s.all.Perm (List.range c.n)
   exh : s.exhausted = true → s.pending = []
   out : ∀ o, s.outcome = some o → o = s.verdict c ∧ (s.broken c = true ∨ s.loopOver = true)
+  /-- the timeout that exhausts the budget has re-queued its task, and nothing is submitted afterwards -/
+  bud : c.threshold < s.timeoutCnt → s.tasks ≠ []
 
 theorem iinvB_init (c : ICfg) (nw : Nat) : IInvB c (IT.init nw c.n) := by
-  refine ⟨?_, ?_, ?_⟩ <;> simp [IT.init, IT.all]
+  refine ⟨?_, ?_, ?_, ?_⟩ <;> simp [IT.init, IT.all]
 
 theorem it_draw_facts (s : IT) :
     s.draw.all.Perm s.all ∧ (s.exhausted = true → s.draw = s) ∧
@@ -76,7 +78,7 @@ theorem it_draw_facts (s : IT) :
     s.draw.outcome = s.outcome ∧ s.draw.running = s.running ∧ s.draw.failed = s.failed ∧
     s.draw.timeoutCnt = s.timeoutCnt ∧ s.draw.finished = s.finished ∧ s.draw.statesQ = s.statesQ ∧
     s.draw.merged = s.merged ∧ s.draw.result = s.result ∧ s.draw.yieldedB = s.yieldedB ∧
-    s.draw.outQ = s.outQ := by
+    s.draw.outQ = s.outQ ∧ s.draw.ws = s.ws := by
   unfold IT.draw
   by_cases hc : (s.tasks.isEmpty && !s.exhausted) = true
   · rw [if_pos hc]
@@ -96,17 +98,22 @@ theorem iinvB_step {c : ICfg} {s s' : IT} (h : IInvB c s) (hs : IStep c s s') : 
     simp [List.count_cons] at this; rw [this]
   cases hs with
   | submitNone w ho hb hd =>
-    obtain ⟨h1, _, h3, h4, _⟩ := it_draw_facts s
-    exact ⟨h1.trans h.cons, h3 h.exh, by simp [h4, ho]⟩
+    obtain ⟨h1, _, h3, h4, _, _, h7, _⟩ := it_draw_facts s
+    have hnb : ¬ c.threshold < s.timeoutCnt := by
+      intro hlt; simp [IT.broken, hlt] at hb
+    exact ⟨h1.trans h.cons, h3 h.exh, by simp [h4, ho], by rw [h7]; intro hlt; exact absurd hlt hnb⟩
   | submitSome w t rest ho hb hfree hd =>
-    obtain ⟨h1, _, h3, h4, h5, _⟩ := it_draw_facts s
-    refine ⟨List.Perm.trans ?_ (h1.trans h.cons), h3 h.exh, by simp [h4, ho]⟩
+    obtain ⟨h1, _, h3, h4, h5, _, h7, _⟩ := it_draw_facts s
+    have hnb : ¬ c.threshold < s.timeoutCnt := by
+      intro hlt; simp [IT.broken, hlt] at hb
+    refine ⟨List.Perm.trans ?_ (h1.trans h.cons), h3 h.exh, by simp [h4, ho],
+      by simp only [h7]; intro hlt; exact absurd hlt hnb⟩
     simp only [IT.all, hd, ← h5, List.map_append, List.map_cons, List.map_nil]
     rw [List.perm_iff_count]; intro a
     simp [List.count_append, List.count_cons]; omega
   | co i k m r o hr hco =>
     have hsh := (coStep_sound hco).shard
-    refine ⟨?_, h.exh, ?_⟩
+    refine ⟨?_, h.exh, ?_, h.bud⟩
     · have : (s.running.set i o.r).map (·.shard) = s.running.map (·.shard) :=
         map_set_same (·.shard) hr hsh
       simpa [IT.all, this] using h.cons
@@ -115,34 +122,34 @@ theorem iinvB_step {c : ICfg} {s s' : IT} (h : IInvB c s) (hs : IStep c s s') : 
       have hne : (s.running.set i o.r).isEmpty = s.running.isEmpty := by
         cases hrun : s.running <;> simp_all
       simpa [IT.verdict, IT.broken, IT.loopOver, hne] using this
-  | zco i k m r o hr hco => exact ⟨by simpa [IT.all] using h.cons, h.exh, h.out⟩
-  | drain b q ho hq => exact ⟨by simpa [IT.all] using h.cons, h.exh, by simp [ho]⟩
+  | zco i k m r o hr hco => exact ⟨by simpa [IT.all] using h.cons, h.exh, h.out, h.bud⟩
+  | drain b q ho hq => exact ⟨by simpa [IT.all] using h.cons, h.exh, by simp [ho], h.bud⟩
   | checkFinished i r ho hr hco =>
-    refine ⟨List.Perm.trans ?_ h.cons, h.exh, by simp [ho]⟩
+    refine ⟨List.Perm.trans ?_ h.cons, h.exh, by simp [ho], h.bud⟩
     simp only [IT.all]; rw [List.perm_iff_count]; intro a
     simp [List.count_append, List.count_cons, hcntE hr a]; omega
   | checkTimeout i r ho hr hco =>
-    refine ⟨List.Perm.trans ?_ h.cons, h.exh, by simp [ho]⟩
+    refine ⟨List.Perm.trans ?_ h.cons, h.exh, by simp [ho], by simp⟩
     simp only [IT.all]; rw [List.perm_iff_count]; intro a
     simp [List.count_append, List.count_cons, hcntE hr a]; omega
   | checkErr i r ho hr hco =>
-    refine ⟨List.Perm.trans ?_ h.cons, h.exh, by simp [ho]⟩
+    refine ⟨List.Perm.trans ?_ h.cons, h.exh, by simp [ho], h.bud⟩
     simp only [IT.all]; rw [List.perm_iff_count]; intro a
     simp [List.count_append, List.count_cons, hcntE hr a]; omega
   | checkDead i r ho hr hco hdead =>
-    refine ⟨List.Perm.trans ?_ h.cons, h.exh, by simp [ho]⟩
+    refine ⟨List.Perm.trans ?_ h.cons, h.exh, by simp [ho], by simp⟩
     simp only [IT.all]; rw [List.perm_iff_count]; intro a
     simp [List.count_append, List.count_cons, hcntE hr a]; omega
   | finish ho hc =>
-    refine ⟨by simpa [IT.all] using h.cons, h.exh, ?_⟩
+    refine ⟨by simpa [IT.all] using h.cons, h.exh, ?_, h.bud⟩
     intro o' ho'
     simp at ho'
     refine ⟨?_, ?_⟩
     · rw [← ho']; simp [IT.verdict]
     · simpa [IT.broken, IT.loopOver] using hc
-  | merge sh q hres hq => exact ⟨by simpa [IT.all] using h.cons, h.exh, h.out⟩
-  | mergeStop q hres hq => exact ⟨by simpa [IT.all] using h.cons, h.exh, h.out⟩
-  | env ws' => exact ⟨by simpa [IT.all] using h.cons, h.exh, h.out⟩
+  | merge sh q hres hq => exact ⟨by simpa [IT.all] using h.cons, h.exh, h.out, h.bud⟩
+  | mergeStop q hres hq => exact ⟨by simpa [IT.all] using h.cons, h.exh, h.out, h.bud⟩
+  | env ws' _ => exact ⟨by simpa [IT.all] using h.cons, h.exh, h.out, h.bud⟩
 
 /-! ## shard states (repaired code: `directPut = false`) -/
 
@@ -260,7 +267,7 @@ theorem iinvS_step {c : ICfg} {s s' : IT} (hfix : c.directPut = false) (h : IInv
       simp only [Option.some.injEq] at hx
       subst hx
       exact ⟨by simp [hm], hm⟩
-  | env ws' => exact ⟨h.st, h.hasSt, h.run, h.stop, h.res⟩
+  | env ws' _ => exact ⟨h.st, h.hasSt, h.run, h.stop, h.res⟩
 
 /-! ## output batches -/
 
@@ -319,11 +326,11 @@ theorem iinvO_step {c : ICfg} {s s' : IT} (h : IInvO c s) (hs : IStep c s s') : 
     fun i r hr => h.bat r (List.mem_of_mem_eraseIdx hr)
   cases hs with
   | submitNone w ho hb hd =>
-    obtain ⟨_, _, _, h4, h5, _, _, h8, _, _, _, h12, h13⟩ := it_draw_facts s
+    obtain ⟨_, _, _, h4, h5, _, _, h8, _, _, _, h12, h13, _⟩ := it_draw_facts s
     exact ⟨by rw [h5, h12, h13]; exact h.bat, by rw [h8, h12, h13]; exact h.fin,
       by rw [h4, h8, h12]; exact h.finOut⟩
   | submitSome w t rest ho hb hfree hd =>
-    obtain ⟨_, _, _, h4, h5, _, _, h8, _, _, _, h12, h13⟩ := it_draw_facts s
+    obtain ⟨_, _, _, h4, h5, _, _, h8, _, _, _, h12, h13, _⟩ := it_draw_facts s
     refine ⟨?_, by simp only [h8, h12, h13]; exact h.fin, by simp only [h4, h8, h12]; exact h.finOut⟩
     intro r hr
     simp only [List.mem_append, List.mem_singleton] at hr
@@ -368,7 +375,98 @@ theorem iinvO_step {c : ICfg} {s s' : IT} (h : IInvO c s) (hs : IStep c s s') : 
       fun _ sh hsh b hb => h.fin sh hsh b hb⟩
   | merge sh q hres hq => exact ⟨h.bat, h.fin, h.finOut⟩
   | mergeStop q hres hq => exact ⟨h.bat, h.fin, h.finOut⟩
-  | env ws' => exact ⟨h.bat, h.fin, h.finOut⟩
+  | env ws' _ => exact ⟨h.bat, h.fin, h.finOut⟩
+
+/-! ## `iterate` never acquires a worker -/
+
+theorem set_noAcq {ws : List Worker} {w : Nat} {y : Worker} (hws : ∀ z ∈ ws, z.acquired = false)
+    (hy : y.acquired = false) : ∀ z ∈ ws.set w y, z.acquired = false := by
+  intro z hz
+  rcases List.mem_or_eq_of_mem_set hz with hz | rfl
+  · exact hws z hz
+  · exact hy
+
+theorem issue_noAcq (env : Env) {ws : List Worker} (w : Nat) (hws : ∀ z ∈ ws, z.acquired = false) :
+    ∀ z ∈ (issue env ws w).2, z.acquired = false := by
+  unfold issue
+  cases hx : ws[w]? with
+  | none => simpa using hws
+  | some x =>
+    have hxa := hws x (List.mem_of_getElem? hx)
+    simp only
+    apply set_noAcq hws
+    unfold Worker.issue
+    split
+    · exact hxa
+    · split <;> exact hxa
+
+theorem crashW_noAcq {env : Env} {ws ws' : List Worker} {w : Nat} (h : crashW env ws w = some ws')
+    (hws : ∀ z ∈ ws, z.acquired = false) : ∀ z ∈ ws', z.acquired = false := by
+  unfold crashW at h
+  cases hx : ws[w]? with
+  | none => simp [hx] at h
+  | some x =>
+    have hxa := hws x (List.mem_of_getElem? hx)
+    simp only [hx] at h
+    split at h
+    · cases h
+    · split at h
+      · cases h; exact set_noAcq hws hxa
+      · cases h; exact set_noAcq hws hxa
+      · cases h
+
+theorem rejoinW_noAcq {ws ws' : List Worker} {w : Nat} (h : rejoinW ws w = some ws')
+    (hws : ∀ z ∈ ws, z.acquired = false) : ∀ z ∈ ws', z.acquired = false := by
+  unfold rejoinW at h
+  cases hx : ws[w]? with
+  | none => simp [hx] at h
+  | some x =>
+    have hxa := hws x (List.mem_of_getElem? hx)
+    simp only [hx] at h
+    split at h
+    · cases h; exact set_noAcq hws hxa
+    · cases h
+
+theorem CoRel.noAcq {c : ICfg} {ws : List Worker} {r : RunI} {o : CoOut} (h : CoRel c ws r o)
+    (hws : ∀ z ∈ ws, z.acquired = false) : ∀ z ∈ o.ws, z.acquired = false := by
+  cases h with
+  | start h => exact issue_noAcq c.env _ hws
+  | initOk h => exact issue_noAcq c.env _ hws
+  | raiseT h => exact hws
+  | raiseE h => exact hws
+  | batches f pos k h hk => exact issue_noAcq c.env _ hws
+  | marker pos k h hk => exact hws
+  | fin h => exact hws
+
+theorem noAcq_step {c : ICfg} {s s' : IT} (h : ∀ x ∈ s.ws, x.acquired = false) (hs : IStep c s s') :
+    ∀ x ∈ s'.ws, x.acquired = false := by
+  have hd : s.draw.ws = s.ws := (it_draw_facts s).2.2.2.2.2.2.2.2.2.2.2.2.2
+  cases hs with
+  | submitNone w ho hb hd' => rw [hd]; exact h
+  | submitSome w t rest ho hb hfree hd' => simp only [hd]; exact h
+  | co i k m r o hr hco => exact (coStep_sound hco).noAcq h
+  | zco i k m r o hr hco => exact (coStep_sound hco).noAcq h
+  | drain b q ho hq => exact h
+  | checkFinished i r ho hr hco => exact h
+  | checkTimeout i r ho hr hco => exact h
+  | checkErr i r ho hr hco => exact h
+  | checkDead i r ho hr hco hdead => exact h
+  | finish ho hc => exact h
+  | merge sh q hres hq => exact h
+  | mergeStop q hres hq => exact h
+  | env ws' hw =>
+    rcases hw with ⟨w, hw⟩ | ⟨w, hw⟩
+    · exact crashW_noAcq hw h
+    · exact rejoinW_noAcq hw h
+
+theorem noAcquire_reach {c : ICfg} {nw : Nat} {s : IT} (h : IReach c (IT.init nw c.n) s) :
+    ∀ x ∈ s.ws, x.acquired = false := by
+  induction h with
+  | refl =>
+    intro x hx
+    simp [IT.init] at hx
+    rw [hx.2]
+  | step l _ hs ih => exact noAcq_step ih (itStep_sound hs)
 
 /-! ## all invariants along any run -/
 
